@@ -114,6 +114,9 @@ def normalize_real(op_json, real):
         out['then'] = [normalize_real(sub, r) for sub, r in zip(op_json.get('then', []), real.get('then', []))]
         return out
     if op == 'analyze_pragma': return {'range': real.get('range')}
+    if op == 'imported_exports_add':
+        def nz(v): return None if v is None else {'kind': v['kind'], 'entries': sorted([[e[0], e[1]] for e in v['entries']], key=lambda e: e[0])}
+        return {'after': nz(real['after']), 'delta': nz(real['delta'])}
     if op == 'errors':
         out = []
         for e in real['errors']:
